@@ -1,0 +1,12 @@
+//go:build verif
+
+// Contracts for the deductive verifier in /verif (govc). Comment-only: this file adds no code.
+package utils
+
+// ---- C11 / C12: list membership, used to decide which imported fields are required
+
+// Contains is membership in the list: true exactly when some element equals the needle.
+//@ func Contains
+//@   pure
+//@   ensures [is-membership] result == exists(i, 0, len(haystack), haystack[i] == needle)
+//@   loop 0 invariant [not-found-so-far] forall(j, 0, rangeindex + 1, haystack[j] != needle)
